@@ -341,6 +341,11 @@ class FullStackSuite(Suite):
         if T is not None and boot_at is not None:
             if res[0] == "timeout" and res[1] > boot_at + T:
                 fails.append(f"Linux stage: TimeoutError at t={res[1] / U:.3f}s, boot command at {boot_at / U:.3f}s, boot_timeout {T / U:.3f}s")
+            # (the login delay is not waited for when it would end after the deadline: that abort may come early)
+            if res[0] == "timeout" and res[1] < boot_at + T and not ("login_delay" in res[2] and res[1] + lcfg["login_delay"] >= boot_at + T):
+                # every stage has its own timer: the time the U-Boot stage took must not be charged to the Linux stage
+                fails.append(f"Linux stage: TimeoutError at t={res[1] / U:.3f}s although the boot command was sent at {boot_at / U:.3f}s and "
+                             f"boot_timeout is {T / U:.3f}s (raised {(boot_at + T - res[1]) / U:.3f}s early)")
             login_done = any(bytes.fromhex(bhex) == user for _, bhex, _ in writes)
             if res[0] == "blocked" and not login_done:
                 # (after the login the documented scope of boot_timeout -- reaching the login prompt -- has ended;
@@ -379,7 +384,7 @@ class FullStackSuite(Suite):
                 lcfg["no_pw_timeout"] = 1024
             autoboot = rng.random() < 0.7
             ucfg = {"autoboot": autoboot, "countdown": autoboot, "keys": "\r" if autoboot else "", "prompt": rng.choice(["=> ", "U-Boot> "]),
-                    "noise": "", "boot_delay": rng.choice([0, 300]), "d_count": rng.choice([0, 512]), "d_prompt": rng.choice([0, 100]),
+                    "noise": "", "boot_delay": rng.choice([0, 300]), "d_count": rng.choice([0, 512, 6144]), "d_prompt": rng.choice([0, 100]),
                     "d_intr": 0, "need_intr": 0 if autoboot else rng.choice([1, 2]), "prompt_at_start": False, "stall": None,
                     "frag": lcfg["frag"], "gap": lcfg["gap"], "boot_timeout": rng.choice([None, 20480])}
             yield {"ucfg": ucfg, "cfg": lcfg, "seed": rng.randrange(1 << 30)}
